@@ -16,9 +16,11 @@ from harness.common import leandriver, bits
 PROPERTY = 'C20'
 LEVEL = 'proof'
 REQUIRED_THEOREMS = ['Properties.C20.' + n for n in (
-    'tile_spec', 'tile_length', 'tile_ok', 'tile_eq_repeatRows', 'repeat_rows_ok_partial', 'repeat_rows_spec',
-    'split_merge_id_partial', 'merge_split_id_partial', 'merged_index', 'empty_trailing_counterexample',
-    'sum_except_batch_shape_partial', 'sum_except_batch_value_partial', 'sum_except_batch_batch_lost', 'sum_except_batch_counterexample',
+    'tile_spec', 'tile_length', 'tile_ok', 'tile_eq_repeatRows', 'repeat_rows_ok', 'repeat_rows_spec',
+    'merge_ok', 'merge_split_id', 'split_merge_id', 'split_merge_id_infer_partial', 'split_infer_empty_counterexample', 'merged_index',
+    'empty_trailing_ok',
+    'sum_except_batch_shape', 'sum_except_batch_value', 'sum_except_batch_reduce', 'sum_except_batch_all_batch',
+    'sum_except_batch_keeps_batch_example',
     'searchsorted_spec', 'searchsorted_spec_real', 'searchsorted_result_eq', 'searchsorted_pure', 'searchsorted_noclone_mutates_counterexample',
     'cbrt_cube', 'cbrt_neg', 'cbrt_executed_eq', 'logabsdet_spec', 'detL_small',
     'alternating_mask_spec', 'alternating_mask_count', 'mid_split_spec', 'mid_split_count', 'random_mask_count',
@@ -388,6 +390,11 @@ def correspondence_scalar(ctx, gen):
             reqs.append({'op': 'c20.kde', 'p': prec, 'i': [N, D], 'f': [bits.tensor_bits(sm), bits.tensor_bits(q)],
                          'd': [bits.f64_bits(std), bits.f64_bits(dconst)]})
             metas.append(('kde', (N, D), prec, kind, v, changed(sm, ss) + changed(q, sq)))
+    for n in (1, 2, 3, 5, 8):
+        torch.manual_seed(ctx.seed * 17 + n)
+        kind, q = call(u.random_orthogonal, n)
+        reqs.append({'op': 'c20.pred', 'v': {'t': 'none'}})          # no model counterpart: the spec QtQ = I is checked directly
+        metas.append(('random_orthogonal', n, None, kind, q, []))
     resps = leandriver.call(reqs)
     for meta, resp in zip(metas, resps):
         fn = meta[0]
@@ -444,20 +451,29 @@ def correspondence_scalar(ctx, gen):
             _, (N, D), prec, kind, v, _ = meta
             case = {'function': 'gaussian_kde_log_eval', 'N': N, 'D': D, 'prec': prec}
             mv = bits.dec(resp['f'][0], prec)[0]
-            merr = resp.get('e')
             if kind != 'ok':
                 ctx.case(key=('kde-err', N, D, prec), branch='kde/%s/error:%s' % (prec, kind), nontrivial=False)
-                if merr != kind:
-                    ctx.disagree(fn, case, kind, merr or mv, 'implementation raised, model did not (or a different kind)')
+                ctx.disagree(fn, case, kind, mv, 'implementation raised, model returned a value')
                 continue
             iv = float(v)
             ctx.case(key=('kde', N, D, prec), branch='kde/%s/ok' % prec, nontrivial=True,
                      sample=dict(case, impl=iv, model=mv) if (N, D) == (3, 2) else None)
+            want = torch.float32 if prec == 'f32' else torch.float64
             tol = (2e-5 if prec == 'f32' else 1e-10) * (1 + abs(mv))
             if not abs(iv - mv) <= tol:
                 ctx.disagree(fn, case, iv, mv, 'KDE log-density differs')
-            elif merr:
-                ctx.infos.append('gaussian_kde_log_eval now accepts %s inputs (model still mirrors the dtype error): finding resolved?' % prec)
+            elif v.dtype != want:
+                ctx.disagree(fn, case, str(v.dtype), str(want), 'KDE result dtype differs from the inputs')
+        elif fn == 'random_orthogonal':
+            _, n, _, kind, q, _ = meta
+            case = {'function': 'random_orthogonal', 'size': n}
+            if kind != 'ok':
+                ctx.case(key=('rorth-err', n), branch='random_orthogonal/error:%s' % kind, nontrivial=False)
+                ctx.disagree(fn, case, kind, 'orthogonal [n, n] matrix', 'implementation raised'); continue
+            ctx.case(key=('rorth', n), branch='random_orthogonal/ok', nontrivial=n > 1)
+            err = float((q.double().T @ q.double() - torch.eye(n, dtype=torch.float64)).abs().max()) if tuple(q.shape) == (n, n) else float('inf')
+            if not err <= 1e-5:
+                ctx.disagree(fn, case, {'shape': list(q.shape), 'max|QtQ - I|': err}, 'orthogonal [n, n] matrix', 'random_orthogonal is not orthogonal')
 
 
 # ---------------------------------------------------------------------------------------------------------------
@@ -617,7 +633,7 @@ def oracle_structural(report, quick=True):
                         if kind2 != 'ok' or tuple(back.shape) != tuple(shape) or not np.array_equal(_np_of(back), ref):
                             report('merge_leading_dims(split_leading_dim(x, %s), %d) != x' % (sh, len(sh)), case, {'function': 'merge_leading_dims', 'symptom': 'not-inverse'})
             # sum_except_batch: batch dims preserved, each batch entry is the sum of its block
-            for k in range(0, len(shape)):
+            for k in range(0, len(shape) + 1):
                 s = snap(x, base)
                 kind, r = call(u.sum_except_batch, x, k)
                 case = {'function': 'sum_except_batch', 'shape': list(shape), 'layout': layout, 'num_batch_dims': k}
@@ -661,6 +677,30 @@ def oracle_empty_trailing(report):
         report('repeat_rows(x[2,0], 3) raises %s; expected an empty tensor of shape [6, 0]' % kind,
                {'function': 'repeat_rows', 'shape': [2, 0], 'num_reps': 3},
                {'function': 'repeat_rows', 'symptom': 'empty-trailing-dims-raise'})
+
+
+def oracle_fixed_witnesses(report):
+    """the witnesses of the fixed findings F12 (searchsorted mutated its argument), F9 (eps absorbed in float32) and
+    F14 (random_orthogonal could not be called); match dicts as listed in known_findings.json"""
+    u = U()
+    bins = torch.tensor([0.0, 50.0, 100.0], dtype=torch.float32)
+    keep = bins.clone()
+    v0 = bins._version
+    kind, r = call(u.searchsorted, bins, torch.tensor([100.0], dtype=torch.float32))
+    if not torch.equal(bins, keep) or bins._version != v0:
+        report('searchsorted modified its bin_locations argument: %s -> %s' % (keep.tolist(), bins.tolist()),
+               {'function': 'searchsorted', 'bin_locations': keep.tolist()}, {'function': 'searchsorted', 'symptom': 'mutates-argument'})
+    if kind != 'ok' or r.tolist() != [1]:
+        report('searchsorted(float32 knots [0, 50, 100], input 100.) = %s, expected bin 1 (last bin closed)' % (r.tolist() if kind == 'ok' else kind),
+               {'function': 'searchsorted', 'bin_locations': keep.tolist(), 'input': 100.0, 'dtype': 'float32'},
+               {'function': 'searchsorted', 'symptom': 'index-out-of-range'})
+    torch.manual_seed(0)
+    kind, q = call(u.random_orthogonal, 3)
+    if kind != 'ok':
+        report('random_orthogonal(3) raises %s' % kind, {'function': 'random_orthogonal', 'size': 3}, {'function': 'random_orthogonal', 'symptom': 'raises'})
+    elif tuple(q.shape) != (3, 3) or float((q.T @ q - torch.eye(3)).abs().max()) > 1e-5:
+        report('random_orthogonal(3) is not an orthogonal [3, 3] matrix', {'function': 'random_orthogonal', 'size': 3},
+               {'function': 'random_orthogonal', 'symptom': 'not-orthogonal'})
 
 
 def oracle_searchsorted(report, seed=0, quick=True):
@@ -814,7 +854,8 @@ ORACLES = [('structural', lambda rep, ctx: oracle_structural(rep, ctx.quick())),
            ('scalar', lambda rep, ctx: oracle_scalar(rep, ctx.seed)),
            ('masks', lambda rep, ctx: oracle_masks(rep, ctx.seed)),
            ('preds', lambda rep, ctx: oracle_preds(rep)),
-           # the behaviours of the unchanged tree that contradict the property come last, with specific match dicts
+           # witnesses of the findings that were fixed in /repo (F9, F12, F14, G1, G2, G3a, G3b), with their specific match dicts
+           ('fixed_witnesses', lambda rep, ctx: oracle_fixed_witnesses(rep)),
            ('batch_lost', lambda rep, ctx: oracle_batch_lost(rep)),
            ('empty_trailing', lambda rep, ctx: oracle_empty_trailing(rep)),
            ('kde_dtype', lambda rep, ctx: oracle_kde_dtype(rep))]
